@@ -574,6 +574,16 @@ TIME_RE = re.compile(r'^(\d\d):(\d\d):(\d\d)(\.\d+)?([+\-](\d\d):(\d\d)|Z)?$')
 DATE_RE = re.compile(r'^(-?)(\d\d\d\d)-(\d\d)-(\d\d)([+\-](\d\d):(\d\d)|Z)?$')
 
 
+def _parse_xsd_microseconds(fraction: str) -> int:
+    """
+    Convert the fractional part of a seconds field (a dot followed by decimal digits) into microseconds.
+
+    The digits are evaluated as a decimal number, not via binary floating point, so that every microsecond value
+    survives. Digits beyond microsecond precision are cut off.
+    """
+    return int(fraction[1:7].ljust(6, "0"))
+
+
 def _parse_xsd_duration(value: str) -> Duration:
     match = DURATION_RE.match(value)
     if not match:
@@ -584,7 +594,7 @@ def _parse_xsd_duration(value: str) -> Duration:
                    hours=int(match[6][:-1]) if match[6] else 0,
                    minutes=int(match[7][:-1]) if match[7] else 0,
                    seconds=int(match[9]) if match[8] else 0,
-                   microseconds=int(float(match[10])*1e6) if match[10] else 0)
+                   microseconds=_parse_xsd_microseconds(match[10]) if match[10] else 0)
     if match[1]:
         res = -res
     return res
@@ -614,7 +624,7 @@ def _parse_xsd_datetime(value: str) -> DateTime:
         raise ValueError("Value is not a valid XSD datetime string")
     if match[1]:
         raise ValueError("Negative Dates are not supported by Python")
-    microseconds = int(float(match[8]) * 1e6) if match[8] else 0
+    microseconds = _parse_xsd_microseconds(match[8]) if match[8] else 0
     return DateTime(int(match[2]), int(match[3]), int(match[4]), int(match[5]), int(match[6]), int(match[7]),
                     microseconds, _parse_xsd_date_tzinfo(match[9]))
 
@@ -623,7 +633,7 @@ def _parse_xsd_time(value: str) -> Time:
     match = TIME_RE.match(value)
     if not match:
         raise ValueError("Value is not a valid XSD datetime string")
-    microseconds = int(float(match[4]) * 1e6) if match[4] else 0
+    microseconds = _parse_xsd_microseconds(match[4]) if match[4] else 0
     return Time(int(match[1]), int(match[2]), int(match[3]), microseconds, _parse_xsd_date_tzinfo(match[5]))
 
 
